@@ -46,8 +46,11 @@ def run_model(tier, seed, coverage=False):
     states = tlc_printed_values(r.out, "CFG")
     if len(states) < 100:
         raise MachineryError("TLC emitted only %d configurations\n%s" % (len(states), r.out[-2000:]))
-    # [cfg, attr] pairs
-    return r, [(v[0], v[1]) for v in states]
+    # [cfg, attr] pairs; the (few) configurations off the default semilocal mode come first so that a capped replay
+    # never starves the mode x normaliser-class cross product (MC_FeatureAlgebra!SLNormCfgs)
+    pairs = [(v[0], v[1]) for v in states]
+    pairs.sort(key=lambda t: 0 if (t[0]["sl"] != "npa" and t[1]["valid"]) else 1)
+    return r, pairs
 
 
 def build_nldf(n):
